@@ -36,6 +36,7 @@ C_FUNCS = [
     ("trees.c", "tsk_treeseq_get_mutation"), ("trees.c", "tsk_treeseq_get_population"), ("trees.c", "tsk_treeseq_get_provenance"),
     ("trees.c", "tsk_tree_has_sample_counts"), ("trees.c", "tsk_treeseq_is_sample"), ("trees.c", "tsk_tree_reset_tracked_samples"),
     ("trees.c", "tsk_tree_set_tracked_samples"),
+    ("trees.c", "tsk_treeseq_get_num_nodes"), ("genotypes.c", "variant_init_samples_and_index_map"),
     ("trees.c", "tsk_tree_seek"),
     ("trees.c", "tsk_tree_seek_index"),
     ("tables.c", "tsk_table_collection_check_tree_integrity"),
